@@ -4,10 +4,15 @@ package interp
 
 import (
 	"fmt"
+	"go/ast"
+	"go/parser"
+	"go/token"
 	"go/types"
 	"os"
 	"path/filepath"
+	"strconv"
 	"strings"
+	"sync"
 
 	"golang.org/x/tools/go/packages"
 	"golang.org/x/tools/go/ssa"
@@ -88,4 +93,65 @@ func Load(cfg LoadConfig) (*Session, []*packages.Package, error) {
 		}
 	}
 	return s, initial, nil
+}
+
+var errVarMu sync.Mutex
+
+// simpleErrVar parses the source files of a dependency package (regenerated on every run) and
+// returns the message of a package-level `var name = errors.New("message")`.
+func (s *Session) simpleErrVar(pkgPath, name string) (string, bool) {
+	errVarMu.Lock()
+	defer errVarMu.Unlock()
+	if s.errVars == nil {
+		s.errVars = map[string]map[string]string{}
+	}
+	tbl, ok := s.errVars[pkgPath]
+	if !ok {
+		tbl = map[string]string{}
+		s.errVars[pkgPath] = tbl
+		dir := s.PkgDirs[pkgPath]
+		matches, _ := filepath.Glob(filepath.Join(dir, "*.go"))
+		fset := token.NewFileSet()
+		for _, f := range matches {
+			if strings.HasSuffix(f, "_test.go") || dir == "" {
+				continue
+			}
+			af, err := parser.ParseFile(fset, f, nil, parser.SkipObjectResolution)
+			if err != nil {
+				continue
+			}
+			for _, d := range af.Decls {
+				gd, ok := d.(*ast.GenDecl)
+				if !ok || gd.Tok != token.VAR {
+					continue
+				}
+				for _, sp := range gd.Specs {
+					vs := sp.(*ast.ValueSpec)
+					if len(vs.Names) != len(vs.Values) {
+						continue
+					}
+					for k, v := range vs.Values {
+						ce, ok := v.(*ast.CallExpr)
+						if !ok || len(ce.Args) != 1 {
+							continue
+						}
+						sel, ok := ce.Fun.(*ast.SelectorExpr)
+						if !ok || sel.Sel.Name != "New" {
+							continue
+						}
+						if x, ok := sel.X.(*ast.Ident); !ok || x.Name != "errors" {
+							continue
+						}
+						if lit, ok := ce.Args[0].(*ast.BasicLit); ok && lit.Kind == token.STRING {
+							if txt, err := strconv.Unquote(lit.Value); err == nil {
+								tbl[vs.Names[k].Name] = txt
+							}
+						}
+					}
+				}
+			}
+		}
+	}
+	msg, ok := tbl[name]
+	return msg, ok
 }
